@@ -258,6 +258,13 @@ func main() {
 		}
 		return nil
 	}
+	r.ConcurrentReplay = true
+	r.Noise = func(i int) {
+		var list []string
+		src := fmt.Sprintf("/* n%d */package p%d\nimport (\"a%d\"; x \"b\")\nvar v = %d\n", i, i%3, i%11, i)
+		imports.ReadImports(strings.NewReader(src), i%2 == 0, &list)
+		imports.ReadImports(strings.NewReader(src[:len(src)/2]+"\x00"), true, &list)
+	}
 	r.MaybeReplay()
 
 	var files, validFiles, rejected, withImports int64
